@@ -59,12 +59,13 @@ func submitAndJudge(c *Ctx, w *world.World, v *world.Node, sub c15Sub, wit map[s
 		pendBefore[o.ID] = o
 	}
 	boardBefore := w.Board.Len()
+	isApprove := strings.HasPrefix(sub.Label, "approve-participation")
 	var err error
 	var pan interface{}
 	func() {
 		defer func() { pan = recover() }()
 		switch {
-		case v.CLI != nil && sub.Label == "approve-participation":
+		case v.CLI != nil && isApprove:
 			err = v.CLI.Approve(sub.Op.ID)
 		case v.CLI != nil:
 			// the result file is handed to `dc4bc_cli read_operation_result`
@@ -76,13 +77,13 @@ func submitAndJudge(c *Ctx, w *world.World, v *world.Node, sub c15Sub, wit map[s
 			}
 			err = v.CLI.SubmitFile(path)
 			c.Add("submissions_through_the_dc4bc_cli_binary", 1)
-		case v.API != nil && sub.Label == "approve-participation":
+		case v.API != nil && isApprove:
 			err = v.API.Approve(sub.Op.ID)
 		case v.API != nil:
 			// the operator uploads the file: POST /handleProcessedOperationJSON
 			err = v.API.Submit(sub.body())
 			c.Add("submissions_through_the_rest_api", 1)
-		case sub.Label == "approve-participation":
+		case isApprove:
 			err = v.Svc.ApproveParticipation(&dto.OperationIdDTO{OperationID: sub.Op.ID})
 		default:
 			err = v.Svc.ProcessOperation(world.OpToDTO(sub.Op))
@@ -117,10 +118,10 @@ func submitAndJudge(c *Ctx, w *world.World, v *world.Node, sub c15Sub, wit map[s
 		c.Violate("C15/accepted-result-for-operation-not-pending", sub.Label, wit)
 		return true
 	}
-	if sub.Label != "approve-participation" && (stored.Type != sub.Op.Type || !bytes.Equal(stored.Payload, sub.Op.Payload)) {
+	if !isApprove && (stored.Type != sub.Op.Type || !bytes.Equal(stored.Payload, sub.Op.Payload)) {
 		c.Violate("C15/accepted-result-with-altered-request", sub.Label, wit)
 	}
-	if sub.Label != "approve-participation" && sub.Op.Event == "" {
+	if !isApprove && sub.Op.Event == "" {
 		c.Violate("C15/request-only-operation-accepted", sub.Label, wit)
 	}
 	// board delta == ResultMsgs (approval: the node builds the single confirmation itself)
@@ -128,7 +129,7 @@ func submitAndJudge(c *Ctx, w *world.World, v *world.Node, sub c15Sub, wit map[s
 	if sub.Op.Event == types.OperationProcessed {
 		want = nil
 	}
-	if sub.Label == "approve-participation" {
+	if isApprove {
 		if len(posted) != 1 || posted[0].Event != EvConfirm {
 			c.Violate("C15/approval-posted-unexpected-messages", fmt.Sprint(len(posted)), wit)
 		}
@@ -185,7 +186,7 @@ func semanticEqual(a, b *types.Operation) string {
 }
 
 func checkC15(c *Ctx) {
-	c.Rule = "ceremonies (key generation + signing, plus a reinitialisation) are driven with an operator that, before every genuine submission, first submits altered variants of the result (other/unknown/retired id, changed type, changed payload byte, request-only, result of another node's operation, result for another round), then the genuine one, then the genuine one again, and sometimes two pending results in reverse order. Every submission is judged on board delta, pool delta, attribution and ed25519 signature of what was posted, and byte-exact state equality when refused. File round trip: every operation and result goes through the real writers/readers (JSON file written by Machine.ProcessOperation, parsed back; the same operation processed twice into the same result file) and is compared field by field. distinct = distinct (operation type, submission kind)"
+	c.Rule = "ceremonies (key generation + signing, plus a reinitialisation) are driven with an operator that, before every genuine submission, first submits altered variants of the result (other/unknown/retired id, changed type, changed payload byte, request-only, result of another node's operation, result for another round), then the genuine one, then the genuine one again, and sometimes two pending results in reverse order. Every submission is judged on board delta, pool delta, attribution and ed25519 signature of what was posted, and byte-exact state equality when refused. File round trip: every operation and result goes through the real writers/readers (JSON file written by Machine.ProcessOperation, parsed back; the same operation processed twice into the same result file) and is compared field by field. Before each genuine submission the board refuses one message of the result: nothing may be posted, the operation stays pending. Approvals go through the approval path on every channel, also with the board unreachable at the first attempt. distinct = distinct (operation type, submission kind)"
 	c.Assumptions = []string{"MemState", "ResultMsgs are not checkable by the node (they come from the machine); the property only demands that exactly those are posted"}
 	worlds := c.Pick(48, 400)
 	Parallel(worlds, 12, func(wi int) { runC15(c, wi, c.Seed*109+uint64(wi)) })
@@ -336,6 +337,25 @@ func runC15(c *Ctx, wi int, seed uint64) {
 				bad.ID = strings.Repeat("0", 32)
 				submitAndJudge(c, w, nd, c15Sub{Label: "approve-participation:unknown-id", Op: bad, Expect: "reject"}, wit)
 				c.Distinct("approve|unknown-id")
+				// the board is unreachable at the first attempt: nothing posted, nothing changed, still pending
+				nd.NB.FailSend = fmt.Errorf("board unreachable (injected)")
+				submitAndJudge(c, w, nd, c15Sub{Label: "approve-participation:board-unreachable", Op: op, Expect: "reject"}, wit)
+				nd.NB.FailSend = nil
+				c.Distinct("approve|board-unreachable")
+				if pend := w.PendingOps(nd); true {
+					found := false
+					for _, o := range pend {
+						if o.ID == op.ID {
+							found = true
+							if o.Event != "" || len(o.ResultMsgs) != 0 {
+								c.Violate("C15/pending-operation-altered-by-a-failed-approval", fmt.Sprintf("after a failed approval the node offers the invitation with event %q and %d result message(s): not the request it issued", o.Event, len(o.ResultMsgs)), wit)
+							}
+						}
+					}
+					if !found {
+						c.Violate("C15/operation-lost-by-a-failed-approval", "the invitation is no longer pending after an approval that failed at the board", wit)
+					}
+				}
 				submitAndJudge(c, w, nd, c15Sub{Label: "approve-participation", Op: op, Expect: "accept"}, wit)
 				c.Distinct("approve|genuine")
 				again := submitAndJudge(c, w, nd, c15Sub{Label: "approve-participation:again", Op: op, Expect: "reject"}, wit)
